@@ -676,6 +676,7 @@ func normaliseChanged(rel string, orig, fd *ast.FuncDecl) *ast.FuncDecl {
 	}
 	splitMinBounds(c)
 	expandSlicesEqualPrefix(c)
+	expandSlicesCompare(c)
 	splitSingleExit(c)
 	defaultAsTrailer(c)
 	restoreCaseOrder(funcKey(rel, orig), c)
